@@ -137,6 +137,8 @@ type Cluster struct {
 	links    map[[2]int]*link
 	Env      []string
 	Race     bool
+	// ExtraJSON is spliced into every node's cluster configuration object
+	ExtraJSON string
 }
 
 // New lays out an n-node cluster under dir (nothing is started yet).
@@ -232,7 +234,7 @@ func (c *Cluster) StartNode(id int) error {
 		time.Sleep(5 * time.Millisecond)
 	}
 	srv, err := procs.Start(procs.Opts{Dir: nd.Dir, Port: nd.Port, ShardNum: 16, Databases: 1, Race: nd.Race, Env: nd.Env, Cluster: true, NodeID: nd.ID,
-		PeerAddrs: nd.peers, RaftAddr: fmt.Sprintf("http://127.0.0.1:%d", nd.RaftPort), JoinCluster: nd.Join, KeepLog: true})
+		PeerAddrs: nd.peers, RaftAddr: fmt.Sprintf("http://127.0.0.1:%d", nd.RaftPort), JoinCluster: nd.Join, KeepLog: true, ClusterExtraJSON: c.ExtraJSON})
 	nd.Srv = srv
 	if err == nil {
 		// watcher: an exit caused by "address already in use" is the environment's doing; start the node again
